@@ -41,6 +41,11 @@ def tokRt (b : Backend) (p : Purpose) (fk : FooterKind) (s : Bytes) : Res (Bytes
   (parseToken (Extracted.versionHeader b) jsonSuffix (Extracted.kindHeader p.toKind) fk.ok s).map
     (fun t => (showToken (Extracted.versionHeader b) jsonSuffix (Extracted.kindHeader p.toKind) t, t.footer))
 
+/-- the same for a payload type with encoding suffix `sf` (`Payload::SUFFIX`): the header is version ‖ suffix ‖ purpose -/
+def tokRtSuf (b : Backend) (p : Purpose) (fk : FooterKind) (sf s : Bytes) : Res (Bytes × Bytes) :=
+  (parseToken (Extracted.versionHeader b) sf (Extracted.kindHeader p.toKind) fk.ok s).map
+    (fun t => (showToken (Extracted.versionHeader b) sf (Extracted.kindHeader p.toKind) t, t.footer))
+
 def Form.parse (b : Backend) : Form → Bytes → Res Bytes
   | .tok p, s => (parseToken (Extracted.versionHeader b) jsonSuffix (Extracted.kindHeader p.toKind)
       FooterKind.vec.ok s).map (fun t => t.payload)
